@@ -135,6 +135,7 @@ def main(argv=None):
         print("replay: no (unlisted) violation")
         return 0
 
+    shutil.rmtree(os.path.join(paths.REPLAY, pid), ignore_errors=True)
     # ---- workload: random/enumerated cases + witnesses of known findings
     cases = []
     seen = set()
